@@ -1,6 +1,11 @@
 #!/bin/sh
 # tools/thorough_all.sh: every thorough check once (no evidence), with timing
 cd "$(dirname "$0")/.." || exit 2
+# against a frozen detached worktree of /repo's HEAD (see tools/soak.sh)
+W=/var/tmp/thor_repo_$$
+git -C /repo worktree add --detach -q "$W" HEAD || exit 2
+trap 'git -C /repo worktree remove --force "$W" >/dev/null 2>&1; git -C /repo worktree prune' EXIT INT TERM
+export VERIF_REPO="$W"
 for p in C16 C14 C12 C08 C13 C01 C06 C02 C04 C07 C09 C03 C05 C15; do
   s=$(date +%s); out=$(./check "$p" --tier thorough --no-evidence 2>&1); st=$?; e=$(date +%s)
   echo "thorough $p exit=$st $((e-s))s $(echo "$out" | tail -1 | cut -c1-200)"
